@@ -1978,8 +1978,55 @@ def unbox_real(v):
     return z3real(unbox(v))
 
 
+def prove_item_identity(src_root, ex: Explorer):
+    """A-item: the index, the term map and the result sets are Python sets / dict values of SharedItem objects; the contracts identify an
+    item with the file it denotes.  That is sound only if equality (and the hash) of SharedItem separates different files: the fields that
+    take part in the comparison must determine the absolute path - the owning shared directory (whose own comparison includes its
+    absolute path), the sub directory and the file name.  Read from the dataclass declarations; a hand-written __eq__ / __hash__ is outside
+    this reading (undecided)."""
+    import ast
+    from contracts.common import source
+    src, _ = source(src_root)
+    mod = src.module('shares.model')
+
+    def compare_fields(cname):
+        c = [n for n in mod.tree.body if isinstance(n, ast.ClassDef) and n.name == cname]
+        if not c:
+            raise Unsupported(f'class {cname} not found')
+        c = c[0]
+        if any(isinstance(n, ast.FunctionDef) and n.name in ('__eq__', '__hash__') for n in c.body):
+            raise Unsupported(f'{cname} defines its own __eq__ / __hash__')
+        deco = [d for d in c.decorator_list if 'dataclass' in ast.unparse(d)]
+        if not deco:
+            raise Unsupported(f'{cname} is not a dataclass')
+        dkw = {k.arg: ast.unparse(k.value) for k in deco[0].keywords} if isinstance(deco[0], ast.Call) else {}
+        if dkw.get('eq') == 'False':
+            return None
+        out = set()
+        for st in c.body:
+            if isinstance(st, ast.AnnAssign) and isinstance(st.target, ast.Name) and 'ClassVar' not in ast.unparse(st.annotation):
+                cmp_ = True
+                if isinstance(st.value, ast.Call) and ast.unparse(st.value.func) in ('field', 'dataclasses.field'):
+                    for k in st.value.keywords:
+                        if k.arg == 'compare' and ast.unparse(k.value) == 'False':
+                            cmp_ = False
+                        if k.arg == 'hash' and ast.unparse(k.value) == 'False' and not any(k2.arg == 'compare' for k2 in st.value.keywords):
+                            pass
+                if cmp_:
+                    out.add(st.target.id)
+        return out
+
+    def path(ctx: Ctx):
+        item_f, dir_f = compare_fields('SharedItem'), compare_fields('SharedDirectory')
+        ctx.prove('C07.item.equality-separates-files', item_f is not None and {'shared_directory', 'subdir', 'filename'} <= item_f
+                  and dir_f is not None and 'absolute_path' in dir_f,
+                  f'SharedItem compares {sorted(item_f or [])}, SharedDirectory compares {sorted(dir_f or [])}: two different files (same relative '
+                  'path in two shared directories) can be equal, so sets and the term map keep only one of them')
+    ex.run(path, 'item-identity')
+
+
 def items(src_root, tier):
-    return [('query', None), ('termmap', None), ('scan', None), ('parse', None), ('dirs', None), ('scan-directory', None), ('lemma', None)]
+    return [('identity', None), ('query', None), ('termmap', None), ('scan', None), ('parse', None), ('dirs', None), ('scan-directory', None), ('lemma', None)]
 
 
 def run_item(src_root, item, tier):
@@ -1990,7 +2037,8 @@ def run_item(src_root, item, tier):
         if kind == 'lemma':
             prove_lemma_bounded(src_root, ex, tier)
         else:
-            {'query': prove_query, 'termmap': prove_termmap, 'scan': prove_scan, 'parse': prove_parse, 'dirs': prove_dirs, 'scan-directory': prove_scan_directory}[kind](src_root, ex)
+            {'query': prove_query, 'termmap': prove_termmap, 'scan': prove_scan, 'parse': prove_parse, 'dirs': prove_dirs, 'scan-directory': prove_scan_directory,
+             'identity': prove_item_identity}[kind](src_root, ex)
     except Unsupported as e:
         res.errors.append(f'{kind}: unsupported: {e}')
     collect(res, ex)
